@@ -30,6 +30,8 @@ type ListIter struct {
 	Calls int
 	// Panic: instead of failing with FailErr the iterator panics with it.
 	Panic bool
+	// Fired: the injected failure / panic actually happened.
+	Fired bool
 }
 
 func NewListIter(s []Sample) *ListIter { return &ListIter{S: s, pos: -1, FailAt: -1} }
@@ -39,6 +41,7 @@ func (it *ListIter) land() chunkenc.ValueType {
 		return chunkenc.ValNone
 	}
 	if it.FailAt >= 0 && it.pos >= it.FailAt {
+		it.Fired = true
 		if it.Panic {
 			panic(it.FailErr)
 		}
